@@ -338,12 +338,92 @@ theorem closed_fieldSet (g : Bool) (f : Str) (k0 k1 : Nat) (w : Str) (more : Lis
       (plainLiteral_field_set g cf rf _ hf (by simp [skip0, List.dropWhile, isNomSpace]) hfn _ t hp)
   · simp [fieldSetOpd, setText]; omega
 
+theorem leafAlt_paren (x : Str) : leafAlt ('(' :: x) = none := by
+  have h2 : range ('(' :: x) = none := by
+    simp [range, skip0, List.dropWhile, isNomSpace, tag, List.isPrefixOf]
+  have h3 : set ('(' :: x) = none := by
+    simp [set, skip0, List.dropWhile, isNomSpace, tag, List.isPrefixOf]
+  have h4 : exists_ ('(' :: x) = none := by
+    simp [exists_, skip0, List.dropWhile, isNomSpace]
+  have h5 : regex ('(' :: x) = none := by simp [regex]
+  have hn : negativeNumber ('(' :: x) = none := by
+    unfold negativeNumber
+    split
+    · rename_i heq; exact absurd (List.cons.inj heq).1 (by decide)
+    · rfl
+  have hw : word ('(' :: x) = none := by
+    unfold word
+    split
+    · rename_i heq; exact absurd (List.cons.inj heq).1 (by decide)
+    · rename_i heq
+      obtain ⟨rfl, rfl⟩ := List.cons.inj heq
+      simp [escapeInWord]
+    · rfl
+  have hst : simpleTerm ('(' :: x) = none := by
+    unfold simpleTerm
+    rw [hn]
+    simp [hw]
+  simp [leafAlt, h2, h3, h4, h5, termOrPhrase, hst]
+
+/-- `name:( … )` with a list of good items inside is closed; its tree is the list's tree with the
+    field set on every leaf that has none (`set_default_field`) -/
+theorem closed_fieldGroup (g : Bool) (f : Str) (lead : Nat) (occ : Option Occur) (o : Opd) (more : List PItem)
+    (k : Nat) (hf : PlainWord f) (ho : GoodItem g o) (hm : ∀ it ∈ more, GoodItem g it.opd) :
+    Closed g (fieldGroupOpd f lead occ o more k) := by
+  obtain ⟨c, r, rfl⟩ := List.exists_cons_of_ne_nil hf.ne
+  have hc : plain c = true := hf.all c (by simp)
+  refine ⟨⟨c, _, rfl, (plain_not_space c hc).2, plain_ne c ':' hc (by decide),
+    plain_ne c '+' hc (by decide), plain_ne c '-' hc (by decide), plain_ne c ')' hc (by decide)⟩, ?_, ?_, ?_⟩
+  · intro t
+    have e : (fieldGroupOpd (c :: r) lead occ o more k).text ++ t
+        = (c :: r) ++ ':' :: ('(' :: printList lead occ o more k (')' :: t)) := by
+      simp [fieldGroupOpd, printList_append]
+    rw [e]
+    exact binaryOperand_field (c :: r) _ hf
+  · intro t fu hfu
+    simp only [fieldGroupOpd] at hfu
+    obtain ⟨f', rfl⟩ : ∃ f', fu = f' + 1 := ⟨fu - 1, by omega⟩
+    have e : (fieldGroupOpd (c :: r) lead occ o more k).text ++ t
+        = c :: (r ++ ':' :: ('(' :: printList lead occ o more k (')' :: t))) := by
+      simp [fieldGroupOpd, printList_append]
+    rw [e]
+    have hp := pAst_print g 0 occ o more k (')' :: t) (Or.inr ⟨t, rfl⟩) ho hm f' (by omega)
+    have hsk : skip0 (printList lead occ o more k (')' :: t)) = printList 0 occ o more k (')' :: t) := by
+      have := skip0_printList g lead occ o ho (printRest more k (')' :: t))
+      simpa [printList, spaces] using this
+    generalize printList lead occ o more k (')' :: t) = X at hsk
+    have hfn : fieldName (c :: (r ++ ':' :: ('(' :: X))) = some (c :: r, '(' :: X) :=
+      fieldName_field c r ('(' :: X) hf (by simp [skip0, List.dropWhile, isNomSpace])
+    have hpl : plainLiteral g (c :: (r ++ ':' :: ('(' :: X))) = .fail := by
+      rw [plainLiteral_eq, hfn]
+      simp [leafAlt_paren]
+    have h1 : c ≠ '(' := plain_ne c '(' hc (by decide)
+    have h2 : c ≠ '*' := plain_ne c '*' hc (by decide)
+    have hs0 : skip0 ('(' :: X) = '(' :: X := by simp [skip0, List.dropWhile, isNomSpace]
+    unfold pLeaf
+    cases htag : tag ['N', 'O', 'T'] (c :: (r ++ ':' :: ('(' :: X))) with
+    | none => simp [h1, h2, R.orElse, hpl, hfn, hs0, hsk, hp, R.bind, fieldGroupOpd]
+    | some rest =>
+      have := tag_plain_skip1' ['N', 'O', 'T'] (c :: r) (':' :: ('(' :: X)) rest (by decide) hf.all hf.ne
+        (plainWord_ne_keyword _ _ hf (by simp [keywords])) (nph_colon _) (by simpa using htag)
+      simp [h1, h2, R.orElse, this, hpl, hfn, hs0, hsk, hp, R.bind, fieldGroupOpd]
+  · have h1 := ho.small
+    have h2 := needRest_le g more k [')'] hm
+    simp only [fieldGroupOpd, printList, List.length_cons, List.length_append, List.length_nil] at h2 ⊢
+    omega
+
 /-- items of a list with boosts: `b = false` for an operand at leaf level, `b = true` for a boosted one -/
 inductive WFB : Bool → Opd → Prop where
   | base (o : Opd) (h : WFOpd o) : WFB false o
   | group (lead : Nat) (occ : Option Occur) (o : Opd) (more : List PItem) (k : Nat) (bo : Bool)
       (bm : PItem → Bool) (ho : WFB bo o) (hm : ∀ it ∈ more, WFB (bm it) it.opd) :
       WFB false (groupOpd lead occ o more k)
+  | fieldGroup (f : Str) (lead : Nat) (occ : Option Occur) (o : Opd) (more : List PItem) (k : Nat) (bo : Bool)
+      (bm : PItem → Bool) (hf : PlainWord f) (ho : WFB bo o) (hm : ∀ it ∈ more, WFB (bm it) it.opd) :
+      WFB false (fieldGroupOpd f lead occ o more k)
+  | boostFieldGroup (f : Str) (lead : Nat) (occ : Option Occur) (o : Opd) (more : List PItem) (k : Nat) (bo : Bool)
+      (bm : PItem → Bool) (hf : PlainWord f) (ho : WFB bo o) (hm : ∀ it ∈ more, WFB (bm it) it.opd)
+      (b : BoostLit) (hb : WFBoost b) : WFB true (boostOpd (fieldGroupOpd f lead occ o more k) b)
   | not (k : Nat) (o : Opd) (ho : WFB false o) : WFB false (notOpd k o)
   | boostGroup (lead : Nat) (occ : Option Occur) (o : Opd) (more : List PItem) (k : Nat) (bo : Bool)
       (bm : PItem → Bool) (ho : WFB bo o) (hm : ∀ it ∈ more, WFB (bm it) it.opd) (b : BoostLit) (hb : WFBoost b) :
@@ -371,6 +451,13 @@ theorem wfb_good (g : Bool) (bo : Bool) (o : Opd) (h : WFB bo o) :
   | group lead occ o more k bo bm _ _ iho ihm =>
     have := goodOpd_group g lead occ o more k iho.1 (fun it hi => (ihm it hi).1)
     exact ⟨this.toItem, fun _ => this⟩
+  | fieldGroup f lead occ o more k bo bm hf _ _ iho ihm =>
+    have := (closed_fieldGroup g f lead occ o more k hf iho.1 (fun it hi => (ihm it hi).1)).toGood
+    exact ⟨this.toItem, fun _ => this⟩
+  | boostFieldGroup f lead occ o more k bo bm hf _ _ b hb iho ihm =>
+    exact ⟨goodItem_boost g _ b
+      (closed_fieldGroup g f lead occ o more k hf iho.1 (fun it hi => (ihm it hi).1)).toBoostable hb,
+      fun h => Bool.noConfusion h⟩
   | not k o _ ih =>
     have := goodOpd_not g k o (ih.2 rfl)
     exact ⟨this.toItem, fun _ => this⟩
